@@ -143,8 +143,9 @@ func c18(args []string) {
 	rng := tr.Rand(18)
 	thorough := tr.Thorough()
 
+	concOnly := len(args) > 1 && args[1] == "conc" // a second pass in a build without the race detector (other interleavings)
 	// 1. every Add/Get sequence of length L for capacities 1..8 (exhaustive to the bound)
-	for n := 1; n <= 8; n++ {
+	for n := 1; n <= 8 && !concOnly; n++ {
 		L := 9
 		if thorough {
 			L = 11
@@ -178,6 +179,9 @@ func c18(args []string) {
 	}
 	// 2. long runs far beyond the capacity
 	for _, n := range []int{1, 2, 3, 8, 20} {
+		if concOnly {
+			break
+		}
 		q := circularQueue.NewCircularQueue(n)
 		watchHeld()
 		emitQ(w, qEv{Ev: "new", N: n})
@@ -206,6 +210,9 @@ func c18(args []string) {
 	}
 	// 2b. queues that have already seen very many additions (the exported index starts near a power of two)
 	for _, start := range []int{1<<16 - 3, 1<<15 - 2, 1<<31 - 3, 1<<32 - 3} {
+		if concOnly {
+			break
+		}
 		for _, n := range []int{1, 2, 3, 8} {
 			q := circularQueue.NewCircularQueue(n)
 			if !setNextIndex(q, start) {
